@@ -14,7 +14,21 @@ use crate::{Error, Reason, Span, WithErrorInfo};
 
 impl Resolver<'_> {
     pub fn fold_function(&mut self, closure: Box<Func>, span: Option<Span>) -> Result<Expr> {
+        // verification hook (v2): the first entry re-enters this function once and observes the value that is
+        // really returned; the re-entered call consumes the flag, so nested calls are first entries again
+        #[cfg(prqlc_verif)]
+        if !verif_respan2::REENTERED.with(|f| f.replace(false)) {
+            verif_respan2::REENTERED.with(|f| f.set(true));
+            let res = self.fold_function(closure, span);
+            let inner = verif_respan2::INNER.with(|c| c.take());
+            if let (Err(e), Some(inner)) = (&res, inner) {
+                verif_respan2::log(inner, span, e.span);
+            }
+            return res;
+        }
         self.fold_function_inner(closure, span).map_err(|e| {
+            #[cfg(prqlc_verif)]
+            verif_respan2::INNER.with(|c| c.set(Some(e.span)));
             // An error raised while evaluating the body of a std function carries a
             // span of std.prql (source id 0), which is not a file the user can see.
             // Report the call in the user's source instead.
@@ -523,4 +537,22 @@ fn verif_respan(err: Option<Span>, call: Option<Span>, out: Option<Span>, moved:
         "verif:respan {}",
         serde_json::json!({"err": j(err), "call": j(call), "out": j(out), "moved": moved})
     );
+}
+
+/// verification hook (v2): the span of the error of the inner fold, remembered by the `map_err` closure, and the
+/// flag of the re-entrance guard
+#[cfg(prqlc_verif)]
+mod verif_respan2 {
+    use crate::Span;
+    thread_local! {
+        pub static REENTERED: std::cell::Cell<bool> = const { std::cell::Cell::new(false) };
+        pub static INNER: std::cell::Cell<Option<Option<Span>>> = const { std::cell::Cell::new(None) };
+    }
+    pub fn log(err: Option<Span>, call: Option<Span>, out: Option<Span>) {
+        let j = |s: Option<Span>| s.map(|s| serde_json::json!([s.start, s.end, s.source_id]));
+        log::debug!(
+            "verif:respan2 {}",
+            serde_json::json!({"err": j(err), "call": j(call), "out": j(out)})
+        );
+    }
 }
